@@ -3,6 +3,7 @@ import TF.Drv.Proto
 import TF.Model.PolyDiv
 import TF.Model.PolyApiD
 import TF.Gen.Consts
+import TF.Gen.PolyLoops
 /-!
 driver handler for the family `polyd` (C09): division, reduction, gcd, power-series inversion, clean division.
 Every threshold comes from `TF.Gen.Consts` (regenerated from the Rust source on every run).
@@ -98,6 +99,44 @@ def generic (X : Fld α) (op : String) (args : List Arg) : Option String :=
       pure (okP X (truncateUsize F p k))
   | _, _ => none
 
+-- BEGIN BT6: the definitions regenerated from polynomial.rs (TF/Gen/PolyLoops.lean) evaluated next to the hand model
+/-- reply of the REGENERATED function (rendered like `generic` renders the hand model's); `none`: no regenerated counterpart
+    or operands too long for the list-indexed loops -/
+def genGeneric (X : Fld α) (op : String) (args : List Arg) : Option String :=
+  let F := X.F
+  let N := nttExec F
+  let small (a d : List α) : Option Unit := if a.length ≤ 96 && d.length ≤ 96 then some () else none
+  match op, args with
+  | "divide", [a, d] => do
+      let a ← X.parse a; let d ← X.parse d; small a d
+      pure (reply ((Gen.Poly.divide F a d).map fun (q, r) => okPs X [q, r]))
+  | "naive_divide", [a, d] => do
+      let a ← X.parse a; let d ← X.parse d; small a d
+      pure (reply ((Gen.Poly.naive_divide F a d).map fun (q, r) => okPs X [q, r]))
+  | "div", [a, d] => do
+      let a ← X.parse a; let d ← X.parse d; small a d
+      pure (reply ((Gen.Poly.div F a d).map (okP X)))
+  | "rem", [a, d] => do
+      let a ← X.parse a; let d ← X.parse d; small a d
+      pure (reply ((Gen.Poly.rem F a d).map (okP X)))
+  | "reduce", [a, m] => do
+      let a ← X.parse a; let m ← X.parse m; small a m
+      pure (reply ((Gen.Poly.reduce F (fastReduce F N FAST_REDUCE_CUTOFF_THRESHOLD STAGE2_MULTIPLE) a m).map (okP X)))
+  | "mod_x_n", [p, .nat n] => do
+      let p ← X.parse p
+      pure (reply ((Gen.Poly.mod_x_to_the_n F p n).map (okP X)))
+  | "truncate", [p, .nat k] => do
+      let p ← X.parse p
+      pure (reply ((Gen.Poly.truncate F p k).map (okP X)))
+  | _, _ => none
+
+def genCheck (X : Fld α) (op : String) (args : List Arg) (model : String) : String :=
+  if model == "skip" then model else
+  match genGeneric X op args with
+  | some g => if g == model then model else s!"GEN-MISMATCH {op} gen={g} model={model}"
+  | none => model
+-- END BT6
+
 def bxExt : ExtOps Nat Spec.X3 where
   lift := Spec.xlift
   unlift := fun t => if t.2.1 == 0 && t.2.2 == 0 then some t.1 else none
@@ -108,8 +147,8 @@ def polyd : Handler
       let a ← fb.parse a; let d ← fb.parse d
       if a.length * d.length > WORK_LIMIT then pure "skip" else
       pure (reply ((cleanDivide bfieldOps xfieldOps bxExt (nttExec xfieldOps) CLEAN_DIVIDE_CUTOFF_THRESHOLD a d).map (okP fb)))
-  | op, .sym "b" :: args => generic fb op args
-  | op, .sym "x" :: args => generic fx op args
+  | op, .sym "b" :: args => (generic fb op args).map (genCheck fb op args)   -- BT6: GEN-MISMATCH wrapper
+  | op, .sym "x" :: args => (generic fx op args).map (genCheck fx op args)   -- BT6
   | _, _ => none
 
 end TF.Drv.PolyDiv
